@@ -173,7 +173,15 @@ class XMIResource(Resource):
         if feat_container.many:
             parent_eobj.__getattribute__(feat_container._name).append(eobject)
         else:
-            parent_eobj.__setattr__(feat_container._name, eobject)
+            name = feat_container._name
+            if feat_container.containment \
+                    and parent_eobj.__getattribute__(name) is not None:
+                # a second element would silently replace (and lose) the first
+                raise ValueError(f'Feature "{name}" of '
+                                 f'{parent_eobj.eClass.name} holds a single '
+                                 f'value, second element line '
+                                 f'{current_node.sourceline}')
+            parent_eobj.__setattr__(name, eobject)
 
         # iterate on children
         for child in current_node:
